@@ -464,4 +464,182 @@ theorem merge_comm {D : K} {t t' a b : DataSummary K} {xs ys : List K} (ha : Rep
     (cmb_datasummary_merge D t a b).2 = (cmb_datasummary_merge D t' b a).2 :=
   (merge_repr (t := t) ha hb).2.1.unique ((merge_repr (t := t') hb ha).2.1.perm List.perm_append_comm)
 
+/-! ### Textbook sample statistics, and the accessors
+
+Conventions documented by the header ("sample variance", "sample skewness", "sample excess kurtosis") and used by the code:
+the unbiased variance (divisor n − 1), the adjusted Fisher–Pearson skewness G1 = √(n(n−1))/(n−2) · g1 and the sample excess
+kurtosis G2 = (n−1)/((n−2)(n−3)) · ((n+1)·g2 + 6), where g1 = m₃/m₂^{3/2}, g2 = m₄/m₂² − 3 and m_k = (1/n)·Σ(x − x̄)^k
+are the (biased) central moments. -/
+
+/-- arithmetic mean -/
+def amean (xs : List K) : K := xs.sum / (xs.length : K)
+/-- biased central moment (1/n) Σ (x − mean)^k -/
+def cmoment (k : ℕ) (xs : List K) : K := S k (amean xs) xs / (xs.length : K)
+/-- unbiased sample variance -/
+def sampleVariance (xs : List K) : K := S 2 (amean xs) xs / ((xs.length : K) - 1)
+/-- sample excess kurtosis G2 -/
+def sampleKurtosis (xs : List K) : K :=
+  let n : K := xs.length
+  (n - 1) / ((n - 2) * (n - 3)) * ((n + 1) * (cmoment 4 xs / (cmoment 2 xs) ^ 2 - 3) + 6)
+/-- square of the adjusted sample skewness G1 -/
+def sampleSkewnessSq (xs : List K) : K :=
+  let n : K := xs.length
+  n * (n - 1) / (n - 2) ^ 2 * ((cmoment 3 xs) ^ 2 / (cmoment 2 xs) ^ 3)
+
+/-- what the theorems assume of libm's `sqrt` and `pow(·, 1.5)` (hypotheses, never axioms) -/
+structure RootFns (sqrt : K → K) (pow : K → K → K) : Prop where
+  sqrt_sq : ∀ x, 0 ≤ x → sqrt x * sqrt x = x
+  sqrt_nonneg : ∀ x, 0 ≤ x → 0 ≤ sqrt x
+  pow_sq : ∀ x, 0 ≤ x → pow x ((3 : K) / 2) * pow x ((3 : K) / 2) = x ^ 3
+  pow_nonneg : ∀ x, 0 ≤ x → 0 ≤ pow x ((3 : K) / 2)
+
+section accessors
+variable {D : K} {s : DataSummary K} {xs : List K}
+
+theorem Repr.cookie_val (h : Repr D s xs) : s.cookie = 70391967513698304 := by
+  have := h.cookie; simpa [cmb_datasummary_initialize] using this
+
+theorem Repr.m1_mean (h : Repr D s xs) (hne : xs ≠ []) : s.m1 = amean xs := h.m1_eq hne
+
+theorem Repr.m2_nonneg (h : Repr D s xs) : 0 ≤ s.m2 := by
+  rw [h.m2]; unfold S
+  apply WS_two_nonneg
+  intro p hp
+  simp only [unitW, List.mem_map] at hp
+  obtain ⟨x, _, rfl⟩ := hp
+  exact zero_lt_one
+
+theorem count_reported (h : Repr D s xs) : cmb_datasummary_count_dom s ∧ cmb_datasummary_count s = xs.length := by
+  simp [cmb_datasummary_count_dom, cmb_datasummary_count, h.cookie_val, h.count]
+
+theorem min_reported (h : Repr D s xs) (hne : xs ≠ []) :
+    cmb_datasummary_min_dom s ∧ cmb_datasummary_min s ∈ xs ∧ ∀ x ∈ xs, cmb_datasummary_min s ≤ x := by
+  simp only [cmb_datasummary_min_dom, cmb_datasummary_min, h.cookie_val, true_and, and_true]
+  exact ⟨h.min_mem hne, h.min_le⟩
+
+theorem max_reported (h : Repr D s xs) (hne : xs ≠ []) :
+    cmb_datasummary_max_dom s ∧ cmb_datasummary_max s ∈ xs ∧ ∀ x ∈ xs, x ≤ cmb_datasummary_max s := by
+  simp only [cmb_datasummary_max_dom, cmb_datasummary_max, h.cookie_val, true_and, and_true]
+  exact ⟨h.max_mem hne, h.le_max⟩
+
+theorem mean_reported (h : Repr D s xs) (hne : xs ≠ []) :
+    cmb_datasummary_mean_dom s ∧ cmb_datasummary_mean s = amean xs := by
+  simp only [cmb_datasummary_mean_dom, cmb_datasummary_mean, h.cookie_val, true_and, and_true]
+  exact h.m1_mean hne
+
+theorem variance_reported (h : Repr D s xs) (hn : 2 ≤ xs.length) :
+    cmb_datasummary_variance_dom s ∧ cmb_datasummary_variance s = sampleVariance xs := by
+  have hne : xs ≠ [] := by intro e; subst e; simp at hn
+  have hc : 1 < s.count := by rw [h.count]; omega
+  have hcast : (((s.count - 1 : ℕ)) : K) = (xs.length : K) - 1 := by
+    rw [h.count, Nat.cast_sub (by omega)]; simp
+  have hnz : (xs.length : K) - 1 ≠ 0 := by
+    have : (1 : K) < (xs.length : K) := by exact_mod_cast (by omega : 1 < xs.length)
+    intro e; linarith
+  constructor
+  · simp only [cmb_datasummary_variance_dom, h.cookie_val, true_and, and_true, gt_iff_lt, hc, if_true, hcast]
+    exact ⟨by omega, hnz⟩
+  · simp only [cmb_datasummary_variance, gt_iff_lt, hc, if_true, hcast, sampleVariance, h.m2]
+    rw [h.m1_mean hne]
+
+theorem variance_small (h : Repr D s xs) (hn : xs.length ≤ 1) : cmb_datasummary_variance s = 0 := by
+  have hc : ¬ 1 < s.count := by rw [h.count]; omega
+  simp [cmb_datasummary_variance, hc]
+
+theorem kurtosis_reported (h : Repr D s xs) (hn : 4 ≤ xs.length) (hv : S 2 (amean xs) xs ≠ 0) :
+    cmb_datasummary_kurtosis_dom s ∧ cmb_datasummary_kurtosis s = sampleKurtosis xs := by
+  have hne : xs ≠ [] := by intro e; subst e; simp at hn
+  have hc : 3 < s.count := by rw [h.count]; omega
+  have h4 : (4 : K) ≤ (xs.length : K) := by exact_mod_cast hn
+  have hn0 : (xs.length : K) ≠ 0 := by intro e; linarith
+  have hn2 : (xs.length : K) - 2 ≠ 0 := by intro e; linarith
+  have hn3 : (xs.length : K) - 3 ≠ 0 := by intro e; linarith
+  have hm2 : s.m2 ≠ 0 := by rw [h.m2, h.m1_mean hne]; exact hv
+  have hv' : S 2 (amean xs) xs ≠ 0 := hv
+  constructor
+  · simp only [cmb_datasummary_kurtosis_dom, h.cookie_val, true_and, and_true, gt_iff_lt, hc, if_true]
+    rw [h.count]
+    exact ⟨mul_ne_zero hm2 hm2, mul_ne_zero hn2 hn3⟩
+  · simp only [cmb_datasummary_kurtosis, gt_iff_lt, hc, if_true, sampleKurtosis, cmoment]
+    rw [h.count, h.m2, h.m4, h.m1_mean hne]
+    field_simp
+
+/-- a vanishing second central sum (constant data) is exactly when the kurtosis is undefined: the C expression is 0/0 -/
+theorem kurtosis_undefined_iff (h : Repr D s xs) (hn : 4 ≤ xs.length) :
+    ¬ cmb_datasummary_kurtosis_dom s ↔ S 2 (amean xs) xs = 0 := by
+  have hne : xs ≠ [] := by intro e; subst e; simp at hn
+  have hc : 3 < s.count := by rw [h.count]; omega
+  constructor
+  · intro hd
+    by_contra hv
+    exact hd (kurtosis_reported h hn hv).1
+  · intro hv hd
+    simp only [cmb_datasummary_kurtosis_dom, h.cookie_val, true_and, and_true, gt_iff_lt, hc, if_true] at hd
+    rw [h.m2, h.m1_mean hne, hv] at hd
+    simp at hd
+
+theorem skewness_reported {sqrt : K → K} {pow : K → K → K} (hr : RootFns sqrt pow) (h : Repr D s xs)
+    (hn : 3 ≤ xs.length) (hv : S 2 (amean xs) xs ≠ 0) :
+    cmb_datasummary_skewness_dom sqrt pow s
+      ∧ (cmb_datasummary_skewness sqrt pow s) ^ 2 = sampleSkewnessSq xs
+      ∧ (0 < S 3 (amean xs) xs → 0 < cmb_datasummary_skewness sqrt pow s)
+      ∧ (S 3 (amean xs) xs < 0 → cmb_datasummary_skewness sqrt pow s < 0)
+      ∧ (S 3 (amean xs) xs = 0 → cmb_datasummary_skewness sqrt pow s = 0) := by
+  have hne : xs ≠ [] := by intro e; subst e; simp at hn
+  have hc : 2 < s.count := by rw [h.count]; omega
+  have h3 : (3 : K) ≤ (xs.length : K) := by exact_mod_cast hn
+  set n : K := (xs.length : K) with hndef
+  have hn0 : 0 < n := by linarith
+  have hn2 : 0 < n - 2 := by linarith
+  have hnn : 0 < n * (n - 1) := mul_pos hn0 (by linarith)
+  have hm2pos : 0 < s.m2 := lt_of_le_of_ne h.m2_nonneg (by rw [h.m2, h.m1_mean hne]; exact fun e => hv e.symm)
+  -- the roots: P = pow m2 1.5 > 0 with P² = m2³, A = sqrt n > 0, B = sqrt (n(n-1)) > 0
+  have hP2 := hr.pow_sq s.m2 (le_of_lt hm2pos)
+  have hP0 := hr.pow_nonneg s.m2 (le_of_lt hm2pos)
+  have hPne : pow s.m2 ((3 : K) / 2) ≠ 0 := by
+    intro e; rw [e] at hP2
+    have : s.m2 ^ 3 = 0 := by rw [← hP2]; ring
+    exact absurd (pow_eq_zero_iff (by norm_num) |>.mp this) (ne_of_gt hm2pos)
+  have hPpos : 0 < pow s.m2 ((3 : K) / 2) := lt_of_le_of_ne hP0 (Ne.symm hPne)
+  have hA2 := hr.sqrt_sq n (le_of_lt hn0)
+  have hA0 := hr.sqrt_nonneg n (le_of_lt hn0)
+  have hApos : 0 < sqrt n := lt_of_le_of_ne hA0 (by intro e; rw [← e, zero_mul] at hA2; exact absurd hA2.symm (ne_of_gt hn0))
+  have hB2 := hr.sqrt_sq (n * (n - 1)) (le_of_lt hnn)
+  have hB0 := hr.sqrt_nonneg (n * (n - 1)) (le_of_lt hnn)
+  have hBpos : 0 < sqrt (n * (n - 1)) :=
+    lt_of_le_of_ne hB0 (by intro e; rw [← e, zero_mul] at hB2; exact absurd hB2.symm (ne_of_gt hnn))
+  have hval : cmb_datasummary_skewness sqrt pow s
+      = sqrt (n * (n - 1)) * (sqrt n * s.m3 / pow s.m2 ((3 : K) / 2)) / (n - 2) := by
+    simp only [cmb_datasummary_skewness, gt_iff_lt, hc, if_true]
+    rw [h.count]
+  have hfac : 0 < sqrt (n * (n - 1)) * sqrt n / (pow s.m2 ((3 : K) / 2) * (n - 2)) :=
+    div_pos (mul_pos hBpos hApos) (mul_pos hPpos hn2)
+  have hval' : cmb_datasummary_skewness sqrt pow s
+      = (sqrt (n * (n - 1)) * sqrt n / (pow s.m2 ((3 : K) / 2) * (n - 2))) * s.m3 := by
+    rw [hval]; field_simp
+  have hm3 : s.m3 = S 3 (amean xs) xs := by rw [h.m3, h.m1_mean hne]
+  refine ⟨?_, ?_, ?_, ?_, ?_⟩
+  · simp only [cmb_datasummary_skewness_dom, h.cookie_val, true_and, and_true, gt_iff_lt, hc, if_true]
+    rw [h.count]
+    exact ⟨hPne, ne_of_gt hn2⟩
+  · have hsq : (cmb_datasummary_skewness sqrt pow s) ^ 2
+        = (n * (n - 1)) * n * s.m3 ^ 2 / (s.m2 ^ 3 * (n - 2) ^ 2) := by
+      rw [hval']
+      have hn2' := ne_of_gt hn2
+      have e : (sqrt (n * (n - 1)) * sqrt n / (pow s.m2 ((3 : K) / 2) * (n - 2)) * s.m3) ^ 2
+          = (sqrt (n * (n - 1)) * sqrt (n * (n - 1))) * (sqrt n * sqrt n) * s.m3 ^ 2
+            / ((pow s.m2 ((3 : K) / 2) * pow s.m2 ((3 : K) / 2)) * (n - 2) ^ 2) := by
+        field_simp
+      rw [e, hA2, hB2, hP2]
+    rw [hsq]
+    simp only [sampleSkewnessSq, cmoment, ← hndef]
+    rw [← h.m1_mean hne, ← h.m2, ← h.m3]
+    have := ne_of_gt hn2; have := ne_of_gt hn0; have := ne_of_gt hm2pos
+    field_simp
+  · intro hp; rw [hval']; exact mul_pos hfac (by rwa [hm3])
+  · intro hp; rw [hval']; exact mul_neg_of_pos_of_neg hfac (by rwa [hm3])
+  · intro hp; rw [hval', hm3, hp]; ring
+
+end accessors
+
 end CimbaModel.Stats
